@@ -29,10 +29,7 @@ Print Assumptions C16_proofgame_checker.
 (** [reachable] (used below) and [plays] (used by the checker) are the same notion *)
 Theorem C16_reachable_iff_played : forall sp,
   reachable sp <-> exists moves, plays start_spos moves sp.
-Proof.
-  intros sp; split; [exact (reachable_plays sp)|].
-  intros [ms H]. exact (plays_reachable _ _ _ H reach_start).
-Qed.
+Proof. exact reachable_iff_played. Qed.
 Print Assumptions C16_reachable_iff_played.
 
 (** how one legal move changes the number of pieces of each type: nothing of the side that
@@ -48,7 +45,7 @@ Theorem C16_move_count_effect : forall sp m,
       cnt b' (mk_piece w Pawn) + 1 <= cnt b (mk_piece w Pawn) /\
       cnt b' (mk_piece w pk) <= cnt b (mk_piece w pk) + 1 /\
       forall k, k <> pk -> cnt b' (mk_piece w k) <= cnt b (mk_piece w k))).
-Proof. intros sp m HL L. exact (move_count_effect sp m HL (legal_shape sp m L)). Qed.
+Proof. exact move_count_effect_legal. Qed.
 Print Assumptions C16_move_count_effect.
 
 (** pawns + pieces beyond the initial set <= 8 per side, in every position of every legal game *)
@@ -69,7 +66,7 @@ Print Assumptions C16_piece_counts.
 Theorem C16_piece_counts_meaning : forall b,
   (validatePieceCounts b = 0%N <-> promotion_budget_ok b true /\ promotion_budget_ok b false) /\
   (pieceCountsValid b = true <-> promotion_budget_ok b true /\ promotion_budget_ok b false).
-Proof. intros b; split; [exact (validate_iff b)|exact (pieceCountsValid_iff b)]. Qed.
+Proof. exact piece_counts_meaning. Qed.
 Print Assumptions C16_piece_counts_meaning.
 
 (** first rule of the distance heuristic (ProofGame::enoughRemainingPieces, "infinity" when it
